@@ -26,7 +26,9 @@ def main():
                 g()
             except Exception as e:
                 print("generator", g, "unavailable:", e)
-        targets += ["Ufw.Props." + p, m.DRIVER] + list(getattr(m, "TIE", []))
+        targets += ["Ufw.Props." + p, m.DRIVER] + list(getattr(m, "TIE", [])) + list(getattr(m, "EXTRA_MODULES", []))
+        if hasattr(m, "tie_modules"):
+            targets += list(m.tie_modules())
     ok, out = vf.lake_build(sorted(set(targets)))
     print(out[-3000:] if not ok else "lake build ok (%d targets)" % len(set(targets)))
     for m in mods:
